@@ -867,7 +867,9 @@ Section Check.
       | _ => Err NotMatch
       end.
 
-    (** [check_array_type_compact(source_base, compact)] *)
+    (** [check_array_type_compact(source_base, compact)]; with strict.arrayIndex the element type is
+        [base | nil], built structurally by [LuaType::from_vec] (since fix a95495c; before, it was
+        [TypeOps::Union], which expanded alias bases and collapsed [never | nil]) *)
     Definition array_check (sbase c : ty) : res :=
       let sb := if strict_array_index cf then from_vec [sbase; TNil] else sbase in
       match c with
